@@ -57,6 +57,9 @@ func (c *RowCollector) CollectResolvedRow(errChan chan<- error, origChan <-chan 
 		for m := range origChan {
 			if m.ColDiff != nil {
 				c.cd = m.ColDiff
+				// collected rows are laid out like c.cd.Names, key columns in front
+				c.resolvedRows.PK = c.cd.PKIndices()
+				c.resolvedRows.Columns = c.cd.Names
 			} else if m.Resolved {
 				err := c.SaveResolvedRow(m.PK, m.ResolvedRow)
 				if err != nil {
@@ -104,7 +107,11 @@ func (c *RowCollector) collectRowsThatStayedTheSame() error {
 		}
 		for _, row := range blk {
 			hash.Reset()
-			_, err := hash.Write(enc.Encode(slice.IndicesToValues(row, c.baseT.PK)))
+			key := row
+			if len(c.baseT.PK) > 0 {
+				key = slice.IndicesToValues(row, c.baseT.PK)
+			}
+			_, err := hash.Write(enc.Encode(key))
 			if err != nil {
 				return err
 			}
@@ -115,6 +122,11 @@ func (c *RowCollector) collectRowsThatStayedTheSame() error {
 			}
 			if ok {
 				continue
+			}
+			if len(row) == c.cd.Len() {
+				// no layer adds a column, so the merged layout is a permutation
+				// of the base layout with key columns in front
+				row = c.cd.RearrangeBaseRow(row)
 			}
 			err = c.resolvedRows.AddRow(row)
 			if err != nil {
